@@ -1,8 +1,24 @@
 //! accessmodel engine. See /verif/DESIGN.md section 2 and /verif/harness/AGENT_GUIDE.md.
+#[macro_use]
+extern crate kanidmd_lib;
+
+mod c20;
+mod c23;
+mod c24;
+mod c25;
+mod gen;
+mod model;
+mod probe;
+mod sim;
 
 fn main() {
     let args = kvcore::parse_args();
     match args.prop.as_str() {
+        "C20" => c20::run(args),
+        "C23" => c23::run(args),
+        "C24" => c24::run(args),
+        "C25" => c25::run(args),
+        "PROBE" => probe::run(args),
         p => {
             println!("INCONCLUSIVE property={p} reason=accessmodel does not serve this property yet");
             std::process::exit(2);
